@@ -1,6 +1,7 @@
 package main
 
 import (
+	"encoding/json"
 	"fmt"
 	"os"
 	"path/filepath"
@@ -13,15 +14,16 @@ import (
 )
 
 type tierCfg struct {
-	pool        int
-	scenarios   int
-	raceFrac    float64
-	profile     Profile
-	maxOps      int // C15: calls per history; C18: ops per bit history
-	maxW        []int
-	maxBits     int
-	budget      time.Duration
-	shrinkEvals int
+	pool           int
+	scenarios      int
+	raceFrac       float64
+	profile        Profile
+	maxOps         int // C15: calls per history; C18: ops per bit history
+	maxW           []int
+	maxBits        int
+	budget         time.Duration
+	shrinkEvals    int
+	boundaryGroups int
 }
 
 func cfgFor(prop, tier string) tierCfg {
@@ -29,14 +31,14 @@ func cfgFor(prop, tier string) tierCfg {
 	switch prop {
 	case "C15":
 		if quick {
-			return tierCfg{pool: 420, scenarios: 260, profile: Profile{MaxLen: 330, MaxRSEcc: 68, ScaleMax: 160}, maxOps: 50, budget: 4 * time.Minute, shrinkEvals: 120}
+			return tierCfg{pool: 420, scenarios: 260, profile: Profile{MaxLen: 330, MaxRSEcc: 68, ScaleMax: 160}, maxOps: 50, budget: 4 * time.Minute, shrinkEvals: 120, boundaryGroups: 10}
 		}
-		return tierCfg{pool: 5000, scenarios: 9000, profile: Profile{MaxLen: 2960, MaxRSEcc: 200, ScaleMax: 400, HeavyTail: true}, maxOps: 250, budget: 50 * time.Minute, shrinkEvals: 300}
+		return tierCfg{pool: 5000, scenarios: 9000, profile: Profile{MaxLen: 2960, MaxRSEcc: 200, ScaleMax: 400, HeavyTail: true}, maxOps: 250, budget: 50 * time.Minute, shrinkEvals: 300, boundaryGroups: 40}
 	case "C16":
 		if quick {
-			return tierCfg{pool: 360, scenarios: 300, raceFrac: 0.3, profile: Profile{MaxLen: 110, MaxRSEcc: 68, ScaleMax: 120}, maxOps: 4, maxW: []int{2, 2, 3, 4, 4, 8, 16}, budget: 4 * time.Minute, shrinkEvals: 120}
+			return tierCfg{pool: 360, scenarios: 300, raceFrac: 0.3, profile: Profile{MaxLen: 110, MaxRSEcc: 68, ScaleMax: 120}, maxOps: 4, maxW: []int{2, 2, 3, 4, 4, 8, 16}, budget: 4 * time.Minute, shrinkEvals: 120, boundaryGroups: 10}
 		}
-		return tierCfg{pool: 3000, scenarios: 10000, raceFrac: 0.3, profile: Profile{MaxLen: 700, MaxRSEcc: 200, ScaleMax: 250, HeavyTail: true}, maxOps: 6, maxW: []int{2, 2, 3, 4, 8, 8, 16, 32, 64}, budget: 60 * time.Minute, shrinkEvals: 300}
+		return tierCfg{pool: 3000, scenarios: 10000, raceFrac: 0.3, profile: Profile{MaxLen: 700, MaxRSEcc: 200, ScaleMax: 250, HeavyTail: true}, maxOps: 6, maxW: []int{2, 2, 3, 4, 8, 8, 16, 32, 64}, budget: 60 * time.Minute, shrinkEvals: 300, boundaryGroups: 40}
 	default: // C18
 		if quick {
 			return tierCfg{scenarios: 220, raceFrac: 0.2, maxOps: 80, maxW: []int{1, 1, 1, 2, 3}, maxBits: 120_000, budget: 3 * time.Minute, shrinkEvals: 150}
@@ -62,6 +64,51 @@ func genPool(r *rng, n int, p Profile, rsShared int) []Call {
 	return pool
 }
 
+// addVariants appends, for a subset of the pool, a sibling call that differs
+// only by a corrupted / truncated / extended content, so that histories can
+// place a failing call right before a successful call of the same encoder
+// (state left behind by an error path).
+func addVariants(r *rng, pool []Call) ([]Call, map[int][]int, map[string][]int) {
+	variants := map[int][]int{}
+	n := len(pool)
+	seen := map[string]bool{}
+	for i := range pool {
+		seen[callKey(&pool[i])] = true
+	}
+	for i := 0; i < n; i++ {
+		c := pool[i]
+		if c.Fn == "rs" || c.Fn == "scale" || len(c.B) == 0 || !r.chance(0.45) {
+			continue
+		}
+		v := c
+		v.B = append([]byte(nil), c.B...)
+		switch r.intn(5) {
+		case 0, 1, 2:
+			pos := r.intn(len(v.B))
+			if r.chance(0.3) {
+				pos = len(v.B) - 1
+			}
+			v.B[pos] = []byte{'x', 0xff, 0x00, '~', 'q'}[r.intn(5)]
+		case 3:
+			v.B = v.B[:len(v.B)/2]
+		default:
+			v.B = append(v.B, v.B...)
+		}
+		k := callKey(&v)
+		if seen[k] {
+			continue
+		}
+		seen[k] = true
+		variants[i] = append(variants[i], len(pool))
+		pool = append(pool, v)
+	}
+	byFn := map[string][]int{}
+	for i := range pool {
+		byFn[pool[i].Fn] = append(byFn[pool[i].Fn], i)
+	}
+	return pool, variants, byFn
+}
+
 func withHistoryAttrs(r *rng, c Call, rsShared int, mutP float64) Call {
 	if c.Fn == "rs" && rsShared > 0 && r.chance(0.85) {
 		c.H = r.rangeIn(1, rsShared)
@@ -75,6 +122,7 @@ func withHistoryAttrs(r *rng, c Call, rsShared int, mutP float64) Call {
 func genC15(seed uint64, cfg tierCfg) ([]*Scenario, []Call) {
 	pr := &rng{s: mix(seed, 15, 1)}
 	pool := genPool(pr, cfg.pool, cfg.profile, 0)
+	pool, variants, byFn := addVariants(pr, pool)
 	// index pool by kind for biased histories
 	var rsIdx, statefulIdx []int
 	for i := range pool {
@@ -111,7 +159,35 @@ func genC15(seed uint64, cfg tierCfg) ([]*Scenario, []Call) {
 				focus[i] = r.intn(len(pool))
 			}
 		}
+		// a quarter of the histories drill one encoder family: valid and corrupted
+		// siblings back to back, so that whatever an error path leaves behind meets
+		// the next successful call of the same package
+		drill := ""
+		if r.chance(0.25) {
+			drill = families[r.intn(len(families))]
+		}
 		for si := 0; si < nseg; si++ {
+			if drill != "" {
+				dp := cfg.profile
+				if dp.MaxLen > 200 {
+					dp.MaxLen = 200
+				}
+				var prog []Call
+				for n := r.rangeIn(4, 24); n > 0; n-- {
+					c := genFamily(r, dp, drill)
+					switch r.intn(4) {
+					case 0:
+						prog = append(prog, withHistoryAttrs(r, corrupt(r, c), 2, 0.7), withHistoryAttrs(r, c, 2, 0.7))
+					case 1:
+						prog = append(prog, withHistoryAttrs(r, c, 2, 0.7), withHistoryAttrs(r, corrupt(r, c), 2, 0.7))
+					default:
+						prog = append(prog, withHistoryAttrs(r, c, 2, 0.7))
+					}
+				}
+				seg := Segment{Kind: "calls", Seed: r.next(), Policy: genPolicy(r, 20000), MapMode: []int{0, 1, 2, 3, 4, 4, 3}[r.intn(7)], Phases: [][][]Call{{prog}}}
+				sc.Segments = append(sc.Segments, seg)
+				continue
+			}
 			n := r.rangeIn(3, cfg.maxOps)
 			if r.chance(0.5) {
 				n = r.rangeIn(3, 12)
@@ -152,6 +228,14 @@ func genC15(seed uint64, cfg tierCfg) ([]*Scenario, []Call) {
 			}
 			var prog []Call
 			for _, ix := range idxs {
+				if vs := variants[ix]; len(vs) > 0 && r.chance(0.3) {
+					// failing sibling first, then a successful call of the same encoder
+					prog = append(prog, withHistoryAttrs(r, pool[vs[r.intn(len(vs))]], 2, 0.7))
+					if r.chance(0.5) {
+						same := byFn[pool[ix].Fn]
+						prog = append(prog, withHistoryAttrs(r, pool[same[r.intn(len(same))]], 2, 0.7))
+					}
+				}
 				prog = append(prog, withHistoryAttrs(r, pool[ix], 2, 0.7))
 			}
 			seg := Segment{Kind: "calls", Seed: r.next(), Policy: genPolicy(r, 20000), MapMode: []int{0, 1, 2, 3, 4, 4, 3}[r.intn(7)], Phases: [][][]Call{{prog}}}
@@ -175,6 +259,7 @@ func genC15(seed uint64, cfg tierCfg) ([]*Scenario, []Call) {
 func genC16(seed uint64, cfg tierCfg) ([]*Scenario, []Call) {
 	pr := &rng{s: mix(seed, 16, 1)}
 	pool := genPool(pr, cfg.pool, cfg.profile, 0)
+	pool, variants, _ := addVariants(pr, pool)
 	var qrdm, scalable []int
 	for i := range pool {
 		switch pool[i].Fn {
@@ -197,9 +282,23 @@ func genC16(seed uint64, cfg tierCfg) ([]*Scenario, []Call) {
 		seg := Segment{Kind: "calls", Seed: r.next(), MapMode: 4}
 		rsShared := r.rangeIn(1, 2)
 		// shared scale sources
-		if r.chance(0.3) && len(scalable) > 0 {
+		if r.chance(0.45) && len(scalable) > 0 {
 			for i := r.rangeIn(1, 3); i > 0; i-- {
-				seg.Shared = append(seg.Shared, pool[scalable[r.intn(len(scalable))]])
+				src := pool[scalable[r.intn(len(scalable))]]
+				if r.chance(0.45) {
+					// the shared object is itself a scaled barcode: several callers read one Scale result
+					src = genScale(r, cfg.profile, src)
+					if r.chance(0.6) {
+						// sizes that usually succeed: a few multiples of a plausible symbol size
+						src.I1 = r.rangeIn(40, cfg.profile.ScaleMax)
+						src.I2 = src.I1
+						if src.Src.Fn != "qr" && src.Src.Fn != "dm" && src.Src.Fn != "aztec" {
+							src.I1 = r.rangeIn(150, 400)
+							src.I2 = r.rangeIn(1, 30)
+						}
+					}
+				}
+				seg.Shared = append(seg.Shared, src)
 			}
 		}
 		if r.chance(0.35) {
@@ -215,6 +314,7 @@ func genC16(seed uint64, cfg tierCfg) ([]*Scenario, []Call) {
 		if len(qrdm) > 0 && r.chance(0.7) {
 			same = pool[qrdm[r.intn(len(qrdm))]]
 		}
+		readers := len(seg.Shared) > 0 && r.chance(0.4) // everybody reads one shared barcode first
 		for wi := 0; wi < w; wi++ {
 			n := r.rangeIn(1, cfg.maxOps)
 			if w >= 16 {
@@ -224,15 +324,27 @@ func genC16(seed uint64, cfg tierCfg) ([]*Scenario, []Call) {
 			for ci := 0; ci < n; ci++ {
 				var c Call
 				switch {
+				case readers && ci == 0:
+					src := seg.Shared[0]
+					c = Call{Fn: "same", Src: &src, Share: true}
 				case style == 2 && ci == 0:
 					c = same
 				case style == 1 && ci == 0 && len(qrdm) > 0:
 					c = pool[qrdm[r.intn(len(qrdm))]]
-				case len(seg.Shared) > 0 && r.chance(0.3):
-					c = genScale(r, cfg.profile, seg.Shared[r.intn(len(seg.Shared))])
+				case len(seg.Shared) > 0 && r.chance(0.35):
+					src := seg.Shared[r.intn(len(seg.Shared))]
+					if r.chance(0.4) {
+						c = Call{Fn: "same", Src: &src}
+					} else {
+						c = genScale(r, cfg.profile, src)
+					}
 					c.Share = true
 				default:
-					c = pool[r.intn(len(pool))]
+					ix := r.intn(len(pool))
+					if vs := variants[ix]; len(vs) > 0 && r.chance(0.25) {
+						prog = append(prog, pool[vs[r.intn(len(vs))]])
+					}
+					c = pool[ix]
 				}
 				prog = append(prog, withHistoryAttrs(r, c, rsShared, 0))
 			}
@@ -270,7 +382,7 @@ func finishC16(sc *Scenario, refs *RefTable) {
 		}
 	}
 	seg.Policy = genPolicy(r, est+10)
-	seg.StepCap = 50*est + 100_000
+	seg.StepCap = 50*est + 1_000_000
 	if r.chance(0.4) {
 		w := len(seg.Phases[len(seg.Phases)-1])
 		for i := r.rangeIn(1, 3); i > 0; i-- {
@@ -351,6 +463,11 @@ func runCheck(prop, tier string) int {
 			cfg.scenarios = n
 		}
 	}
+	if v := os.Getenv("VERIF_BOUNDARY_GROUPS"); v != "" {
+		if n, err := strconv.Atoi(v); err == nil {
+			cfg.boundaryGroups = n
+		}
+	}
 	if v := os.Getenv("VERIF_BUDGET_S"); v != "" {
 		if n, err := strconv.Atoi(v); err == nil {
 			cfg.budget = time.Duration(n) * time.Second
@@ -376,7 +493,10 @@ func runCheck(prop, tier string) int {
 			par = n
 		}
 	}
-	ck := &Checker{prop: prop, tier: tier, seed: seed, b: b, ex: newExecutor(b, par, st), refs: newRefTable(), st: st, known: known, start: time.Now(), budget: cfg.budget}
+	ck := &Checker{prop: prop, tier: tier, seed: seed, b: b, ex: newExecutor(b, par, st), refs: newRefTable(), st: st, known: known, start: time.Now(), budget: cfg.budget, shrinkWall: 150 * time.Second}
+	if tier == "thorough" {
+		ck.shrinkWall = 8 * time.Minute
+	}
 
 	var scs []*Scenario
 	var rule string
@@ -397,6 +517,91 @@ func runCheck(prop, tier string) int {
 		return 2
 	}
 
+	// capacity-boundary drills: inputs that exactly fill a symbol and their neighbours, in every
+	// mode of the encoder, found by probing the library itself
+	if prop == "C15" || prop == "C16" {
+		t0 := time.Now()
+		maxExp := 7
+		if tier == "thorough" {
+			maxExp = 11
+		}
+		groups, err := ck.boundaryGroups(seed, cfg.boundaryGroups, maxExp)
+		if err != nil {
+			fmt.Fprintln(os.Stderr, "verifctl:", err)
+			return 2
+		}
+		if tier == "thorough" {
+			// thorough: additionally every symbol size of QR (4 levels), DataMatrix and Aztec
+			every, err := ck.everyBoundary(seed)
+			if err != nil {
+				fmt.Fprintln(os.Stderr, "verifctl:", err)
+				return 2
+			}
+			groups = append(groups, every...)
+		}
+		nb := 0
+		var drills []*Scenario
+		for gi, g := range groups {
+			nb += len(g)
+			r := &rng{s: mix(seed, 992, uint64(gi))}
+			sc := &Scenario{ID: 1_000_000 + gi, Seed: mix(seed, 993, uint64(gi)), Property: prop, Note: "capacity-boundary drill"}
+			big := false
+			for i := range g {
+				if len(g[i].B) > 400 {
+					big = true
+				}
+			}
+			if prop == "C15" {
+				nseg, nrep := r.rangeIn(1, 2), r.rangeIn(1, 2)
+				if big {
+					nseg, nrep = 1, 1 // large symbols cost ~10^5 steps per call
+				}
+				for si := nseg; si > 0; si-- {
+					var prog []Call
+					for rep := nrep; rep > 0; rep-- {
+						perm := append([]Call(nil), g...)
+						for i := len(perm) - 1; i > 0; i-- {
+							j := r.intn(i + 1)
+							perm[i], perm[j] = perm[j], perm[i]
+						}
+						for _, c := range perm {
+							prog = append(prog, withHistoryAttrs(r, c, 2, 0.7))
+						}
+					}
+					sc.Segments = append(sc.Segments, Segment{Kind: "calls", Seed: r.next(), Policy: genPolicy(r, 20000), MapMode: r.intn(5), Phases: [][][]Call{{prog}}})
+				}
+			} else {
+				sc.Race = cfg.raceFrac > 0 && r.chance(cfg.raceFrac)
+				w := r.rangeIn(2, 8)
+				if big {
+					w = r.rangeIn(2, 4)
+				}
+				var conc [][]Call
+				for wi := 0; wi < w; wi++ {
+					var prog []Call
+					for n := r.rangeIn(1, 3); n > 0; n-- {
+						if big && n > 1 {
+							continue
+						}
+						prog = append(prog, g[r.intn(len(g))])
+					}
+					conc = append(conc, prog)
+				}
+				sc.Segments = []Segment{{Kind: "calls", Seed: r.next(), MapMode: 4, Phases: [][][]Call{conc}}}
+			}
+			drills = append(drills, sc)
+		}
+		scs = append(drills, scs...) // first, so that a time budget never skips them
+		st.BoundaryGroups = len(groups)
+		st.BoundaryCalls = nb
+		fmt.Printf("%d capacity-boundary groups (%d calls) probed in %.1fs\n", len(groups), nb, time.Since(t0).Seconds())
+	}
+
+	if v := os.Getenv("VERIF_DUMP_SCENARIOS"); v != "" {
+		if jb, err := json.Marshal(scs); err == nil {
+			os.WriteFile(v, jb, 0o644)
+		}
+	}
 	// references for every call that can occur
 	var allCalls []*Call
 	for _, sc := range scs {
@@ -421,6 +626,26 @@ func runCheck(prop, tier string) int {
 	if prop == "C16" {
 		for _, sc := range scs {
 			finishC16(sc, ck.refs)
+		}
+	}
+	// step caps from the references: 50 x what the calls need alone, plus slack
+	for _, sc := range scs {
+		for i := range sc.Segments {
+			seg := &sc.Segments[i]
+			if seg.StepCap != 0 {
+				continue
+			}
+			est := 0
+			for _, ph := range seg.Phases {
+				for _, prog := range ph {
+					for k := range prog {
+						if ref := ck.refs.get(&prog[k]); ref != nil {
+							est += ref.Steps + 2
+						}
+					}
+				}
+			}
+			seg.StepCap = 50*est + 1_000_000
 		}
 	}
 
